@@ -106,7 +106,7 @@ var c07AccDataTemplates = []string{
 	"{@join {.} {2}}", "{@join {.} {1} {2}}", "{@len {.}}", "{@join {a} {.}}", "{if {eq {1} a} {sumi {.} 1} {.}}",
 	"{coalesce {.} {1}}", "{len {.}}", "{upper {1}}{.}", "{nosuchkey}", "{-1}", "{9223372036854775807}", "{99}",
 	"{sumi {.} {nosuchkey}}", "{maxi {.} {0}}", "{if {.} {.} first:{1}}", "{@slice {@join {.} {1}} -3}",
-	"{prefix {.} {1}}", "{substr {.}{2} 0 6}", "{.}{.}", "{sumi {.} 4611686018427387904}",
+	"{prefix {.} {1}}", "{substr {.}{2} 0 6}", "{substr {.}{.}{1} 0 9}", "{sumi {.} 4611686018427387904}",
 }
 var c07AccGroupTemplates = []string{
 	"{1}", "{1}", "{2}", "{0}", "{3}", "", "k", "{1}{2}", "{1}\x00{2}", "{.}", "{a}", "{@join {1} {2}}", "{upper {1}}",
@@ -277,7 +277,7 @@ func c07AccExhaustive(depth int) []string {
 func c07AccGen(r *Rand, tier string) []string {
 	n, depth := 700, 3
 	if tier == "thorough" {
-		n, depth = 40000, 5
+		n, depth = 30000, 6
 	}
 	out := make([]string, 0, n)
 	for i := 0; i < n; i++ {
